@@ -737,6 +737,10 @@ def run(tier):
         j5(prog, rep)
         j7_strseq(prog, rep)
         j6_eof(prog, rep)
+        # humansize_parse is a character-at-a-time state machine: its reads are decided on the machine extracted from its CFG
+        # (sa/finite.py; the exploration is C16's S3-grammar)
+        from . import c16
+        c16.s3_grammar(prog, rep, memory_rule="J7-strseq")
         if j4_wrap(prog, rep) < 1:
             rep.defer_broken("J4-wrap: no index with an unsigned subtraction found")
     # the command-line parser's reads of argv[optind] and its pack cursor (rules shared with C18)
